@@ -308,29 +308,34 @@ def TermM.test (m : TermM) (size it : Nat) : Except ErrKind Unit :=
 
 /-! ### edge traversal and the instance -/
 
+/-- the access part of `EdgeTraversal::forward_traversal / reverse_traversal`: with a previous edge
+`last`, apply the access model for the pair and charge `CostModel::access_cost`; the pair is
+(last, e) in a forward search and (e, last) in a reverse search -/
+def edgeAccess (c : Config α) (e : Nat) (last : Option Nat) (prevState : List α) :
+    Except ErrKind (α × List α) :=
+  match last with
+  | none => .ok (zero, prevState)
+  | some l =>
+    match c.edges[l]? with
+    | none => .error .network
+    | some _ =>
+      let pe := if c.reverse then e else l
+      let ne := if c.reverse then l else e
+      match c.access.access c.feats pe ne prevState with
+      | none => .error .access
+      | some st1 =>
+        match c.cost.accessCost pe ne prevState st1 with
+        | none => .error .cost
+        | some ac => .ok ((zero : α) + ac, st1)
+
 /-- `EdgeTraversal::forward_traversal(next = e, prev = last)` and, in a reverse search,
-`reverse_traversal(prev = e, next = last)`: the access pair is (last, e) forward and (e, last) reverse -/
+`reverse_traversal(prev = e, next = last)` ↦ (access_cost, traversal_cost = total − access, state) -/
 def edgeTraversal (c : Config α) (e : Nat) (last : Option Nat) (prevState : List α) :
     Except ErrKind (α × α × List α) :=
   match c.edges[e]? with
   | none => .error .network
   | some _ =>
-    let accessStep : Except ErrKind (α × List α) :=
-      match last with
-      | none => .ok (zero, prevState)
-      | some l =>
-        match c.edges[l]? with
-        | none => .error .network
-        | some _ =>
-          let pe := if c.reverse then e else l
-          let ne := if c.reverse then l else e
-          match c.access.access c.feats pe ne prevState with
-          | none => .error .access
-          | some st1 =>
-            match c.cost.accessCost pe ne prevState st1 with
-            | none => .error .cost
-            | some ac => .ok ((zero : α) + ac, st1)
-    match accessStep with
+    match edgeAccess c e last prevState with
     | .error k => .error k
     | .ok (ac, st1) =>
       match c.trav.traverse c.feats c.edges e st1 with
